@@ -93,7 +93,7 @@ def optAll {α} (o : Option α) (p : α → Bool) : Bool :=
 
 /-- the eleven clauses that concern one object by itself (`hasDerivs`: its `_derivs_` is not empty) -/
 def bodyClauses (b : Body) (hasDerivs : Bool) : List Bool :=
-  [ b.complete,
+  [ b.complete && (b.varr || b.vshape.isEmpty),      -- (a Python scalar has shape ())
     b.vshape == b.shape ++ b.numer ++ b.denom,
     maskOk b.mask b.shape,
     b.nrank == b.numer.length && b.drank == b.denom.length && b.rank == b.nrank + b.drank
@@ -369,8 +369,11 @@ def build (i : CtorIn) (r : Resolved) : R Body :=
 
 /-- vector.py:28-40 `Vector.__init__` (inherited by Vector3, Pair, Quaternion, Polynomial): a Python number becomes
     an array of shape (1,) before the default constructor runs -/
+def vecVal (c : Cls) (a : RawArr) : RawArr :=
+  if (classInfo c).scalarToArr && !a.isArr then ⟨true, [1], a.kind, true⟩ else a
+
 def vectorArg (c : Cls) : RawArg → RawArg
-  | .val a => if (classInfo c).scalarToArr && !a.isArr then .val ⟨true, [1], a.kind, true⟩ else .val a
+  | .val a => .val (vecVal c a)
   | x => x
 
 /-- qube.py:233-428 without the installation of derivatives.  Returns the new object (no derivatives yet). -/
@@ -386,37 +389,50 @@ def bare (b : Body) : ObjDump := ⟨b, [], []⟩
 /-- qube.py:968-1020 `clone(recursive=False)`: every attribute but derivatives, `d_d*` and cache -/
 def cloneBare (o : ObjDump) : ObjDump := bare o.body
 
+def maskRaw : MaskD → RawMask
+  | .scalar b => .bool b | .npbool b => .bool b | .array s b w => .arr s b w | .other => .bad
+
 /-- qube.py:2099-2130 `as_float()` of an object without derivatives -/
 def asFloat (o : ObjDump) : R ObjDump :=
   if o.body.kind == .float then some o
   else if !(classInfo o.body.cls).floatsOk then none
   else
     (ctorCore { cls := o.body.cls, arg := .val ⟨o.body.varr, o.body.vshape, .float, true⟩,
-                mask := (match o.body.mask with
-                         | .scalar b => .bool b | .npbool b => .bool b
-                         | .array s b w => .arr s b w | .other => .bad),
+                mask := maskRaw o.body.mask,
                 derivs := some [], units := .none, nrank := none, drank := none, exmpl := some o, dflt := none }).map bare
 
 /-- qube.py:1915-1953 `as_readonly()` on the arrays and the flag of one object -/
 def bodyReadonly (b : Body) : Body :=
   if b.readonly then b else { b with vwritable := if b.varr then false else b.vwritable, mask := maskToReadonly b.mask, readonly := true }
 
+/-- qube.py:4584-4590: the values for `broadcast_to(())` -/
+def toShapelessValues (b : Body) : R RawArr :=
+  if b.rank == 0 then
+    (if b.varr then (if size b.vshape == 1 then some ⟨false, [], b.kind, true⟩ else none)
+     else some (bodyValues b).norm)
+  else if b.varr && size b.vshape == size b.item then some ⟨true, b.item, b.kind, b.vwritable⟩ else none
+
+/-- qube.py:4592-4595: the mask for `broadcast_to(())` is `bool(mask.ravel()[0])`: some Python bool -/
+def toShapelessMask (b : Body) : R RawMask :=
+  match b.mask with
+  | .scalar m => some (.bool m) | .npbool m => some (.bool m)
+  | .array s _ _ => if size s == 0 then none else some (.bool false)
+  | .other => none
+
+/-- qube.py:4616-4623: the mask broadcast to a shape -/
+def broadcastMask (b : Body) (shape : List Nat) : R RawMask :=
+  match b.mask with
+  | .scalar m => some (.bool m) | .npbool m => some (.bool m)
+  | .array s isBool _ => if bcastTo s shape then some (.arr shape isBool false) else none
+  | .other => none
+
 /-- qube.py:4532-4620 `broadcast_to(shape)` of an object without derivatives, `shape` differing from its own -/
 def broadcastTo (o : ObjDump) (shape : List Nat) : R ObjDump :=
   let b := o.body
   if shape == b.shape then some o else
   if shape.isEmpty then
-    -- special case: broadcast to () (qube.py:4560-4576)
-    let vals : R RawArr :=
-      if b.rank == 0 then
-        (if b.varr then (if size b.vshape == 1 then some ⟨false, [], b.kind, true⟩ else none) else some (bodyValues b).norm)
-      else if b.varr && size b.vshape == size b.item then some ⟨true, b.item, b.kind, b.vwritable⟩ else none
-    let mask : R RawMask :=
-      match b.mask with
-      | .scalar m => some (.bool m) | .npbool m => some (.bool m)
-      | .array s _ _ => if size s == 0 then none else some (.bool false)    -- bool(mask.ravel()[0]): some Python bool
-      | .other => none
-    match vals, mask with
+    -- special case: broadcast to () (qube.py:4583-4599)
+    match toShapelessValues b, toShapelessMask b with
     | some v, some m =>
       (ctorCore { cls := b.cls, arg := .val v, mask := m, derivs := some [], units := .none, nrank := none,
                   drank := none, exmpl := some o, dflt := none }).map bare
@@ -424,20 +440,12 @@ def broadcastTo (o : ObjDump) (shape : List Nat) : R ObjDump :=
   else
     let vshape := if b.varr then b.vshape else [1]
     if !bcastTo vshape (shape ++ b.item) then none else
-    let mask : R RawMask :=
-      match b.mask with
-      | .scalar m => some (.bool m) | .npbool m => some (.bool m)
-      | .array s isBool _ => if bcastTo s shape then some (.arr shape isBool false) else none
-      | .other => none
-    match mask with
+    match broadcastMask b shape with
     | none => none
     | some m =>
       (ctorCore { cls := b.cls, arg := .val ⟨true, shape ++ b.item, b.kind, false⟩, mask := m, derivs := some [],
                   units := .none, nrank := none, drank := none, exmpl := some o, dflt := none }).map
         fun r => bare (bodyReadonly r)
-
-def maskRaw : MaskD → RawMask
-  | .scalar b => .bool b | .npbool b => .bool b | .array s b w => .arr s b w | .other => .bad
 
 def setAssoc {β} (k : String) (v : β) : List (String × β) → List (String × β)
   | [] => [(k, v)]
@@ -477,14 +485,16 @@ def insertDerivs (p : ObjDump) (l : List (String × ObjDump)) (override : Bool) 
     | some p' => insertDerivs p' t override
 
 /-- the public constructor: `ctorCore`, then `insert_derivs` (qube.py:405-408); raises if an insertion raises -/
+def ctorDerivs (i : CtorIn) : List (String × ObjDump) :=
+  match i.derivs with
+  | some l => l
+  | none => (match i.arg with | .qube a => a.derivs | _ => [])
+
 def ctor (i : CtorIn) : R ObjDump :=
   match ctorCore i with
   | none => none
   | some b =>
-    let derivs := match i.derivs with
-      | some l => l
-      | none => (match i.arg with | .qube a => a.derivs | _ => [])
-    match insertDerivs (bare b) derivs false with
+    match insertDerivs (bare b) (ctorDerivs i) false with
     | (o, true) => some o
     | (_, false) => none
 
@@ -523,8 +533,7 @@ def deleteDerivs (p : ObjDump) (override : Bool) : R ObjDump :=
 /-- qube.py:968-1020 `clone(recursive, preserve)`: derivatives are re-inserted one by one -/
 def clone (o : ObjDump) (recursive : Bool) (preserve : List String) : R ObjDump :=
   let keep := if recursive then o.derivs else o.derivs.filter (fun d => preserve.contains d.1)
-  -- `self._derivs_[key]` raises KeyError for a preserved name that is not a derivative
-  if !recursive && !preserve.all (fun k => hasKey k o.derivs) then none else
+  -- (a preserved name that is not a derivative is ignored)
   match insertDerivs (cloneBare o) (keep.map fun d => (d.1, cloneBare d.2)) true with
   | (r, true) => some r
   | (_, false) => none
